@@ -65,7 +65,11 @@ def plan(tier, seed):
     cfgs = [dict(kind='bdd', nmax=4, init_vars=3),
             dict(kind='bdd', nmax=5, init_vars=3),
             dict(kind='bdd', nmax=3, init_vars=3),
-            dict(kind='autoref', nmax=4, init_vars=3)]
+            dict(kind='autoref', nmax=4, init_vars=3),
+            dict(kind='bdd', nmax=5, order=['c', 'a', 'd', 'b'],
+                 ctor='levels', ctor_seed=3),
+            dict(kind='autoref', nmax=5, order=['d', 'b', 'a', 'c'],
+                 ctor='copy_vars')]
     for s in range(12 if tier == 'thorough' else 6):
         specs.append(dict(kind='random', seed=seed * 1000 + s, cfgs=cfgs,
                           examples=1500 if tier == 'thorough' else 350,
